@@ -106,6 +106,16 @@ DEFAULT_PORTS = {
 }
 
 
+def bracket_ipv6(host: bytes) -> bytes:
+    """
+    IPv6 literals are held without their delimiters in `URL.host`, but must be
+    enclosed in square brackets in a serialised URL and in the Host header.
+    """
+    if b":" in host and not host.startswith(b"["):
+        return b"[%b]" % host
+    return host
+
+
 def include_request_headers(
     headers: list[tuple[bytes, bytes]],
     *,
@@ -117,9 +127,9 @@ def include_request_headers(
     if b"host" not in headers_set:
         default_port = DEFAULT_PORTS.get(url.scheme)
         if url.port is None or url.port == default_port:
-            header_value = url.host
+            header_value = bracket_ipv6(url.host)
         else:
-            header_value = b"%b:%d" % (url.host, url.port)
+            header_value = b"%b:%d" % (bracket_ipv6(url.host), url.port)
         headers = [(b"Host", header_value)] + headers
 
     if (
@@ -302,9 +312,10 @@ class URL:
         )
 
     def __bytes__(self) -> bytes:
+        host = bracket_ipv6(self.host)
         if self.port is None:
-            return b"%b://%b%b" % (self.scheme, self.host, self.target)
-        return b"%b://%b:%d%b" % (self.scheme, self.host, self.port, self.target)
+            return b"%b://%b%b" % (self.scheme, host, self.target)
+        return b"%b://%b:%d%b" % (self.scheme, host, self.port, self.target)
 
     def __repr__(self) -> str:
         return (
